@@ -13,7 +13,8 @@ SCALAR_CARRIERS = ['pyfloat', 'pyint', 'np.float64', 'np.float32', 'np.float16',
                    'np.int8', 'np.uint64', 'np.uint32', 'np.uint16', 'np.uint8', '0d-f64', '0d-i64', 'decstr', 'pybool']
 ARRAY_CARRIERS = ['ndarray-f64', 'ndarray-f32', 'ndarray-i64', 'ndarray-i32', 'ndarray-u8', 'list', 'tuple', 'nested-list',
                   'nested-tuple', 'list-decstr', 'ndarray-2d']
-ROUTES = ['ctor', 'call', 'set_val', 'setitem', 'setitem-slice', 'setitem-2d', 'call-reset', 'recfg', 'setitem-reuse']
+ROUTES = ['ctor', 'call', 'set_val', 'setitem', 'setitem-slice', 'setitem-2d', 'call-reset', 'recfg', 'setitem-reuse',
+          'resize-signed', 'resize-fmt', 'like-signed']
 _OTHER = {'trunc': 'around', 'fix': 'ceil', 'floor': 'trunc', 'ceil': 'floor', 'around': 'fix', 'saturate': 'wrap', 'wrap': 'saturate'}
 
 
@@ -182,6 +183,23 @@ def do_write(fx, np, route, obj, fmt, modes, n, raw=False):
         x(0.3 if np.ndim(obj) == 0 else np.full(np.shape(obj), 0.3))
         x.config.rounding = modes[0]
         x.config.overflow = modes[1]
+        x.reset()
+        x.set_val(obj)
+        return x, x
+    if route in ('resize-signed', 'resize-fmt', 'like-signed'):
+        # history: the object (or its template) lived in ANOTHER format -- other signedness only / other word or fraction length
+        # only -- was used there, and is brought to the target format by resize / like= before the write
+        prior = 0.3 if np.ndim(obj) == 0 and not isinstance(obj, (list, tuple)) else np.full(np.shape(np.array(obj, dtype=object)), 0.3)
+        if route == 'resize-signed':
+            x = Fxp(None, not s, w, f, **kw); x(prior); x.resize(signed=s)
+        elif route == 'resize-fmt':
+            if (w + f) % 2:
+                x = Fxp(None, s, w, f + 2, **kw); x(prior); x.resize(n_frac=f)
+            else:
+                x = Fxp(None, s, w + 5, f, **kw); x(prior); x.resize(n_word=w)
+        else:
+            y = Fxp(None, not s, w, f, **kw); y(prior)
+            x = Fxp(None, like=y, signed=s)
         x.reset()
         x.set_val(obj)
         return x, x
